@@ -2,7 +2,7 @@
    order.  Only statements here; proofs live in Proofs/Callbacks*.v.
    Model: Model/Callbacks.v (the Go code after the planned repairs).
    Specification: Spec/CbTrace.v (written from the property statement). *)
-From Tab Require Import Model.Callbacks Spec.CbTrace Proofs.CallbacksBase Proofs.CallbacksSim Proofs.CallbacksProofs Proofs.CallbacksCount Proofs.CallbacksOnce Proofs.CallbacksShared.
+From Tab Require Import Model.Callbacks Model.CellValues Spec.CbTrace Proofs.CallbacksBase Proofs.CallbacksSim Proofs.CallbacksProofs Proofs.CallbacksCount Proofs.CallbacksOnce Proofs.CallbacksShared Proofs.CellValuesProofs.
 
 (* Registering is refused with an error exactly for the unsupported owner/target
    combinations - whatever the state, the owner instance, the time, the callback. *)
@@ -150,3 +150,73 @@ Example c13_example :
      /\ oc_render oc = repeat_app [(3, XCol 0); (4, XCell 0 1); (2, XCell 0 1); (2, XCell 0 2); (4, XCell 1 1); (2, XCell 1 1);
                                    (6, XCell 1 2); (2, XCell 1 2); (4, XCell 2 1); (2, XCell 2 1)] 2.
 Proof. cbv zeta. split; [vm_compute; reflexivity|]. eexists. split; [vm_compute; reflexivity|]. vm_compute. auto. Qed.
+
+(* ---- Cells are values (round 6; Model/CellValues.v: the machine extended by
+   local Cell variables - fresh, or copied out of a row of this or of another
+   table - registrations upon them and Row.Add of them).
+
+   Whatever is done to local Cell variables - any number of them made, copied
+   out of any cells, any registrations upon them, in any order (every history
+   of such operations) - nothing of the table changes and nothing is invoked:
+   the table's state is the same, so every render pass runs exactly the
+   invocations it ran before, on the cell a value was copied from as on every
+   other.  A callback registered upon a copy belongs to the copy. *)
+Theorem c13_value_ops_local : forall l vs log errs vs' log' errs' k,
+  forallb value_only l = true ->
+  vrun_from vs log errs l = Ok (vs', log', errs') ->
+  v_st vs' = v_st vs /\ log' = log
+  /\ render_passes (v_st vs') k = render_passes (v_st vs) k.
+Proof. exact value_ops_local_all. Qed.
+Print Assumptions c13_value_ops_local.
+
+(* A registration upon a variable is refused exactly for the unsupported
+   target; otherwise it is appended to that variable's own list. *)
+Theorem c13_value_register : forall vs n tm g cb v,
+  idx (v_vals vs) n = Ok v ->
+  vstep vs (VRegister n tm g cb) =
+    if accepts KCell g
+    then Ok (mkV (v_st vs) (set_nth (v_vals vs) n (mkCval (cb_append (cv_set v) tm cb) (cv_columnNum v) (cv_inRow v))), [], [false])
+    else Ok (vs, [], [true]).
+Proof. exact register_val_spec. Qed.
+Print Assumptions c13_value_register.
+
+(* Row.Add of a value, in every state: the add-time invocations are those of
+   adding a fresh cell, the new cell (row r, next column) starts with exactly
+   the callback set the value carried, and every other callback set of the
+   table - the set of the cell the value was copied from included - is what
+   adding a fresh cell leaves. *)
+Theorem c13_value_add : forall st r v row cells,
+  idx (st_rows st) r = Ok row -> rw_cells row = Some cells ->
+  forall st' evs, row_add_val st r v = Ok (st', evs) ->
+  exists st0, row_add st r = Ok (st0, evs)
+    /\ st' = put_set st0 (SlCellSelf r (S (length cells))) (cv_set v)
+    /\ get_set st' (SlCellSelf r (S (length cells))) = cv_set v
+    /\ forall sl, sl <> SlCellSelf r (S (length cells)) -> get_set st' sl = get_set st0 sl.
+Proof. exact row_add_val_spec. Qed.
+Print Assumptions c13_value_add.
+
+(* ... and that set is what registering the value's callbacks one by one upon a
+   fresh cell builds (the form in which the harness ships Row.Add of a value to
+   the machine of Model/Callbacks.v: desugar_add).
+   FULL STATEMENT, not closed in round 6:
+     forall vh k, vwf vh -> vrun vh k = run (desugar vh) k   (up to get_set-equality of states)
+   where desugar replaces every VRowAddVal by desugar_add and drops the
+   operations on variables.  Missing: the simulation up to extensional equality
+   of the callback-set table (put_set of a whole set against a sequence of
+   put_sets), carried through step and render_passes. *)
+Theorem c13_value_desugar_partial : forall s,
+  append_entries cbset0 (set_entries s) = s.
+Proof. exact entries_rebuild. Qed.
+Print Assumptions c13_value_desugar_partial.
+
+(* non-vacuity: the value of cell 0.1 (which has a callback, 1) is copied; a
+   callback (2) registered upon the copy fires nowhere while the copy is not
+   added; added to row 1 it fires there, with the inherited one, and the
+   source keeps its own *)
+Example c13_example_values :
+  let h1 := [VOp (OAddRowItems 1); VOp (ORegister (OCell 0 1) TRender GItself 1);
+             VCopyCell 0 1; VRegister 0 TRender GCell 2; VRegister 0 TRender GRow 3] in
+  let h2 := h1 ++ [VOp OAppendNewRow; VRowAddVal 1 0] in
+  (exists oc, vrun h1 1 = Ok oc /\ oc_regerr oc = [false; false; true] /\ oc_render oc = [(1, XCell 0 1)])
+  /\ (exists oc, vrun h2 1 = Ok oc /\ oc_render oc = [(1, XCell 0 1); (1, XCell 1 1); (2, XCell 1 1)]).
+Proof. cbv zeta. split; eexists; (split; [vm_compute; reflexivity|]); vm_compute; auto. Qed.
